@@ -171,6 +171,20 @@ def run_loader_channels(ctx, root, opts, loaded):
                 ctx.report("C19:effective-value:%s" % name, "option %s given by channel '%s' has the wrong effective value" % (name, chan),
                            {"kind": "counterexample", "input": {"option": name, "channel": chan, "cli": cli, "file": fd},
                             "implementation": repr(got), "oracle": repr(want), "response": repr(resp)[:300]})
+            # a falsy value in the file still wins over a truthy command-line value
+            if chan == "both" and kind != "KBool":
+                falsy = {"KSet": [], "KDict": {}, "KInt": 0, "KStr": ""}.get(kind)
+                if name in ("nthreads", "recursion_limit"):
+                    falsy = None
+                if falsy is not None:
+                    srv2, conn2, resp2, msgs2 = start(root, cli, {name: falsy})
+                    got2 = norm(getattr(srv2, name, "<unset>"))
+                    want2 = norm(expected_attr(root, name, falsy))
+                    ctx.count(("chan", name, "both-falsy"), True)
+                    if got2 != want2 or not resp2 or resp2[0][0] != "r":
+                        ctx.report("C19:effective-value:%s" % name, "option %s: an empty/zero value in the file does not override the command line" % name,
+                                   {"kind": "counterexample", "input": {"option": name, "channel": "both", "cli": cli, "file": {name: falsy}},
+                                    "implementation": repr(got2), "oracle": repr(want2)})
             # every other option must be untouched
             other = snapshot(srv, [n for n in names if n != name and n != "nthreads"])
             for n2, v2 in other.items():
@@ -356,6 +370,9 @@ def run(ctx):
     ctx.extra["translator"] = {"regenerated": changed, "unknown": t["unknown"], "loaded_options": sorted(loaded),
                                "options_without_loader": sorted(d for d, k in opts_all if d not in loaded)}
     ctx.proof_obligations(search=lambda: search_failing(ctx))
+    # the differential runs over every documented option, whatever the translator recognised
+    loaded = {d for d, k in opts_all if d not in ("config", "preserve_keyword_order", "variable_hover")
+              and not (d.startswith("debug_") and d != "debug_log")}
     root = make_root()
     try:
         run_loader_channels(ctx, root, opts_all, loaded)
